@@ -1,0 +1,37 @@
+//go:build verif
+
+// Machine-checked contracts for package onchain (comment-only; see /verif/DESIGN.md §2.5).
+
+package onchain
+
+//@ ghost estRate int64
+//@ ghost estFailed bool
+
+// environment: the fee estimator may answer anything (any rate, any error)
+//@ interface Estimator.EstimateFeePerKW
+//@ ensures ghost.estRate == int64(result0) && (ghost.estFailed <==> result1 != nil)
+//@ assigns ghost.estRate, ghost.estFailed
+
+// C30: the rate used is max(floor, estimate), falling back to the configured
+// rate when estimation fails or returns zero; the fee is the code's
+// floating-point formula applied to exactly that rate, and is never below the
+// fee computed at the floor.
+//@ func (*BitcoinOnChain).GetFee
+//@ property C30
+//@ requires b != nil
+//@ ensures noerr: result1 == nil
+//@ ensures rate-selection: result0 == uint64(float64(ite(ite(ghost.estFailed || ghost.estRate == 0, int64(b.fallbackFeeRateSatPerKw), ghost.estRate) < int64(b.feeFloorSatPerKw), int64(b.feeFloorSatPerKw), ite(ghost.estFailed || ghost.estRate == 0, int64(b.fallbackFeeRateSatPerKw), ghost.estRate)) * 4) / 1000 * float64(txSize))
+//@ refute floor: (txSize >= 0 && txSize <= 1000000 && b.feeFloorSatPerKw >= 0 && b.feeFloorSatPerKw <= 1000000000 && b.fallbackFeeRateSatPerKw <= 1000000000000 && ghost.estRate <= 1000000000000) ==> result0 >= uint64(float64(int64(b.feeFloorSatPerKw) * 4) / 1000 * float64(txSize))
+//@ assigns ghost.estRate, ghost.estFailed
+
+// version parsing (regexp + strconv) is outside the verifier's reach: the parse
+// result is treated as an uninterpreted function of the version string.
+//@ func normalizeBitcoinVersion
+//@ pure
+
+//@ func DetermineFeeFloor
+//@ property C30
+//@ ensures unknown: normalizeBitcoinVersion(versionString) == nil ==> result0 == 253
+//@ ensures modern: (normalizeBitcoinVersion(versionString) != nil && (normalizeBitcoinVersion(versionString).major > 29 || (normalizeBitcoinVersion(versionString).major == 29 && normalizeBitcoinVersion(versionString).minor >= 2))) ==> result0 == 25
+//@ ensures legacy: (normalizeBitcoinVersion(versionString) != nil && !(normalizeBitcoinVersion(versionString).major > 29 || (normalizeBitcoinVersion(versionString).major == 29 && normalizeBitcoinVersion(versionString).minor >= 2))) ==> result0 == 253
+//@ ensures floors: result0 == LegacyFeeFloorSatPerKw || result0 == ModernFeeFloorSatPerKw
